@@ -11,7 +11,7 @@ pub fn prop() -> Prop {
     Prop {
         id: "C09",
         level: "exploration",
-        rule: "(i) random bank lists: valid / invalid / near-valid names x random, truncated or valid payloads; (ii) forward-model events; (iii) forward-model events re-encoded with valid CRCs / baselines after setting samples to {i16::MIN, MIN+1, -32768+baseline+-1, MAX, PWB_MIN/MAX}, all samples extreme, pad requested_samples {0,1,2,99,100,101,511}, wire lengths {64,65,100,101,129,130}, all 79 channels of a chip, all 256 wires with noise, 4 full pad columns of noise, waveforms empty after the delay, suppressed 16-byte packets, ADC requested_samples {0,1}; (iv) duplicated / missing / foreign (BV, TRB3, MCVX, chronobox) banks; run numbers simulation, u32::MAX-1 and real-data ranges. try_from_banks, timestamp, avalanches and vertex run under the panic monitor in a release and an overflow-checked build, in child shards with a CPU-time progress watchdog. Non-trivial = distinct events (hash of banks) that built (Ok) and therefore reached avalanches() / vertex(). Also: every byte of the TRG bank, header bytes of a wire bank and payload bytes of a PWB packet (valid CRCs) changed inside an otherwise valid event; PWB packets chunked with a longer final chunk; bursts (all 8 wires of a pad column in 1-3 time bins, >= 13 avalanches at <= 3 radii). Round 4: bank names of 2..=6 bytes in every arrangement of 1-, 2-, 3- and 4-byte characters; the real alpha-g-vertices binary over runs whose main events are bad in every pattern (first, last, all, alternating, leading half, ...): exactly one row per main-event serial number, in file order, trg_time present iff the event builds. Round 5: avalanches at pad rows 0, 1, 574, 575 of every column with the coincident wire pulse. Round 6: wire waveforms of 700..65 533 samples; a PWB packet whose MAC names another known board than its chunks, with and without another bank of that board. Round 7: every waveform length 64..=153 for a block of adjacent wires and for the pads in front of them; one wire firing in 20..45 consecutive bins (a single centimetre-long track). Round 8: 1..=12 pad clusters against 1..=8 wire hits in one pad column and time bin.",
+        rule: "(i) random bank lists: valid / invalid / near-valid names x random, truncated or valid payloads; (ii) forward-model events; (iii) forward-model events re-encoded with valid CRCs / baselines after setting samples to {i16::MIN, MIN+1, -32768+baseline+-1, MAX, PWB_MIN/MAX}, all samples extreme, pad requested_samples {0,1,2,99,100,101,511}, wire lengths {64,65,100,101,129,130}, all 79 channels of a chip, all 256 wires with noise, 4 full pad columns of noise, waveforms empty after the delay, suppressed 16-byte packets, ADC requested_samples {0,1}; (iv) duplicated / missing / foreign (BV, TRB3, MCVX, chronobox) banks; run numbers simulation, u32::MAX-1 and real-data ranges. try_from_banks, timestamp, avalanches and vertex run under the panic monitor in a release and an overflow-checked build, in child shards with a CPU-time progress watchdog. Non-trivial = distinct events (hash of banks) that built (Ok) and therefore reached avalanches() / vertex(). Also: every byte of the TRG bank, header bytes of a wire bank and payload bytes of a PWB packet (valid CRCs) changed inside an otherwise valid event; PWB packets chunked with a longer final chunk; bursts (all 8 wires of a pad column in 1-3 time bins, >= 13 avalanches at <= 3 radii). Round 4: bank names of 2..=6 bytes in every arrangement of 1-, 2-, 3- and 4-byte characters; the real alpha-g-vertices binary over runs whose main events are bad in every pattern (first, last, all, alternating, leading half, ...): exactly one row per main-event serial number, in file order, trg_time present iff the event builds. Round 5: avalanches at pad rows 0, 1, 574, 575 of every column with the coincident wire pulse. Round 6: wire waveforms of 700..65 533 samples; a PWB packet whose MAC names another known board than its chunks, with and without another bank of that board. Round 7: every waveform length 64..=153 for a block of adjacent wires and for the pads in front of them; one wire firing in 20..45 consecutive bins (a single centimetre-long track). Round 8: 1..=12 pad clusters against 1..=8 wire hits in one pad column and time bin. Round 9: wire packets asking for 0..=67 samples while carrying 0..=65.",
         assumptions: &["harness encoders produce CRC-valid packets (counted: events that built)"],
         profiles: both,
         shards: shards16,
